@@ -1316,8 +1316,16 @@ impl Sys {
         for (index, nodes) in &d.routing_table {
             out.push(*index as u64);
             out.push(nodes.len() as u64);
-            for (p, addr, conn) in nodes {
-                out.extend([self.idx(p), *addr as u64, *conn as u64]);
+            for node in nodes {
+                // connection as the C16 model numbers it: NotConnected 0, Connected 1, CanConnect 2, CannotConnect 3
+                use litep2p::protocol::libp2p::kademlia::verif::ConnectionType as Ct;
+                let conn = match node.connection {
+                    Ct::NotConnected => 0u64,
+                    Ct::Connected => 1,
+                    Ct::CanConnect => 2,
+                    Ct::CannotConnect => 3,
+                };
+                out.extend([self.idx(&node.peer), node.has_addresses as u64, conn]);
             }
         }
         let mut keys: Vec<u64> = d
